@@ -3,9 +3,15 @@
 package zenodb
 
 import (
+	"encoding/binary"
+	"io"
+	"os"
 	"time"
 
+	"github.com/golang/snappy"
+
 	"github.com/getlantern/zenodb/common"
+	"github.com/getlantern/zenodb/encoding"
 )
 
 // SimApplied returns a copy of the WAL offsets applied so far to the memstore
@@ -67,4 +73,77 @@ func (db *DB) SimTableNames() []string {
 		}
 	}
 	return names
+}
+
+// SimOldestOnDisk reads the named table's current filestore file as it is
+// (without applying the retention window, unlike every query path) and
+// returns the timestamp of the oldest period that any stored sequence still
+// covers, plus the number of rows. ok is false if there is no file or no row.
+func (db *DB) SimOldestOnDisk(table string) (oldest time.Time, rows int, ok bool, err error) {
+	t := db.getTable(table)
+	if t == nil || t.rowStore == nil {
+		return
+	}
+	rs := t.rowStore
+	rs.mx.RLock()
+	fs := rs.fileStore
+	rs.mx.RUnlock()
+	if fs == nil {
+		return
+	}
+	file, err := os.OpenFile(fs.filename, os.O_RDONLY, 0)
+	if err != nil {
+		if os.IsNotExist(err) {
+			err = nil
+		}
+		return
+	}
+	defer file.Close()
+	r := snappy.NewReader(file)
+	_, _, fileFields, err := fs.info(r)
+	if err != nil {
+		return
+	}
+	for {
+		rowLength := uint64(0)
+		rerr := binary.Read(r, encoding.Binary, &rowLength)
+		if rerr == io.EOF {
+			return
+		}
+		if rerr != nil {
+			err = rerr
+			return
+		}
+		row := make([]byte, rowLength-encoding.Width64bits)
+		if _, rerr = io.ReadFull(r, row); rerr != nil {
+			err = rerr
+			return
+		}
+		rows++
+		keyLength, row := encoding.ReadInt16(row)
+		_, row = encoding.ReadByteMap(row, keyLength)
+		numColumns, row := encoding.ReadInt16(row)
+		colLengths := make([]int, 0, numColumns)
+		for i := 0; i < numColumns; i++ {
+			var colLength int
+			colLength, row = encoding.ReadInt64(row)
+			colLengths = append(colLengths, colLength)
+		}
+		for i, colLength := range colLengths {
+			var seq encoding.Sequence
+			seq, row = encoding.ReadSequence(row, colLength)
+			if seq == nil || i >= len(fileFields) {
+				continue
+			}
+			width := fileFields[i].Expr.EncodedWidth()
+			if seq.NumPeriods(width) == 0 {
+				continue
+			}
+			// (AsOf is the exclusive lower bound of the sequence)
+			first := seq.AsOf(width, t.Resolution).Add(t.Resolution)
+			if !ok || first.Before(oldest) {
+				oldest, ok = first, true
+			}
+		}
+	}
 }
